@@ -28,6 +28,7 @@ def run(ctx):
         return
     args = cm[0].value.args
     def kind(a):
+        a = q.expand(h.node, a)
         t = A.norm(a)
         if t == "self._metadata_per_call":
             return "call"
@@ -44,8 +45,10 @@ def run(ctx):
            "" if got == want else f"lookup order is {got}: later sources no longer win in the documented order", nontrivial=True, where=where(h, cm[0]))
     md_var = A.norm(cm[0].targets[0])
     # plan identity computed from self._plan
-    txt = A.norm(h.node)
-    ok = "plan_type = type(self._plan).__name__" in txt and "plan_name = getattr(self._plan, '__name__', '')" in txt
+    ident = [q.expand(h.node, a) for a in args]
+    ident = [a for a in ident if isinstance(a, ast.Dict) and {A.const_str(k) for k in a.keys} == {"plan_type", "plan_name"}]
+    vals = {A.const_str(k): A.norm(v) for a in ident for k, v in zip(a.keys, a.values)}
+    ok = vals.get("plan_type") == "type(self._plan).__name__" and vals.get("plan_name") == "getattr(self._plan, '__name__', '')"
     ctx.ob("C17.D1-precedence", cname(h, None, "plan identity from the plan passed to RE()"), ok, "" if ok else "plan_type / plan_name source changed", where=where(h, h.node))
     # D2
     val = [s for s in h.node.body if isinstance(s, ast.Expr) and A.find_calls(s, "self.md_validator")]
